@@ -7,7 +7,7 @@ import jax.numpy as jp
 from verif.contracts.common import Obligation, Result, PROVED, REFUTED, UNDECIDED, ERROR, seed
 
 LEVEL = 'other'
-EXPECTED_MIN = {'quick': 12, 'thorough': 30}
+EXPECTED_MIN = {'quick': 24, 'thorough': 60}
 EXPLANATION = ('PROVED by abstract interpretation of the traced programs (a sound over-approximation of ALL reset keys and actions): for every registered '
                'physics environment on every supported native backend, reset and step trace without error (total), step returns a State of exactly the structure, '
                'shapes and dtypes it receives (so it can be iterated), the observation width equals observation_size and the accepted action width equals '
